@@ -2,6 +2,7 @@
 from __future__ import annotations
 
 import z3
+from .slicing import fold as _fold
 
 from .stmt import MetaIter, DictIter
 from .values import (V, NONE, NoneV, Opt, StrV, SymStr, EnumV, Rec, Ref, TupleV, BytesV, ClassV, FuncV, BoundV,
@@ -59,7 +60,7 @@ class BuiltinMixin:
                 t = self.intval(0)
                 for e in o.items:
                     t = t + z3.If(e[1], self.intval(1), self.intval(0))
-                yield st, z3.simplify(t)
+                yield st, _fold(t)
             elif o.cls is not None and self.repo.find_method(o.cls, "__len__"):
                 yield from self.call_method(st, a, "__len__", [], {})
             else:
@@ -416,7 +417,7 @@ class BuiltinMixin:
         for x in items:
             dup = False
             for y in out:
-                e = z3.simplify(self.eq(st, x, y))
+                e = _fold(self.eq(st, x, y))
                 if z3.is_true(e):
                     dup = True
                     break
@@ -735,7 +736,7 @@ class BuiltinMixin:
     def m_set_add(self, st, r, o, args, kwargs):
         x = args[0]
         for y in o.items:
-            e = z3.simplify(self.eq(st, x, y))
+            e = _fold(self.eq(st, x, y))
             if z3.is_true(e):
                 yield st, NONE
                 return
@@ -750,7 +751,7 @@ class BuiltinMixin:
         nb = o.copy()
         keep = []
         for y in o.items:
-            e = z3.simplify(self.eq(st, x, y))
+            e = _fold(self.eq(st, x, y))
             if z3.is_true(e):
                 continue
             if not z3.is_false(e):
@@ -791,7 +792,7 @@ class BuiltinMixin:
         ents = []
         cond = False
         for e in o.items:
-            p = z3.simplify(e[1])
+            p = _fold(e[1])
             if z3.is_false(p):
                 continue
             if not z3.is_true(p):
@@ -851,7 +852,7 @@ class BuiltinMixin:
             kc = self.key_const(e[0])
             for i, d in enumerate(nb.items):
                 if self.key_const(d[0]) == kc:
-                    p = z3.simplify(e[1])
+                    p = _fold(e[1])
                     if z3.is_true(p):
                         nb.items[i] = [d[0], z3.BoolVal(True), e[2]]
                     else:
@@ -945,7 +946,7 @@ class BuiltinMixin:
                                 cc = c if keep else z3.Not(c)
                                 if not self.feasible(s3.pc, cc):
                                     continue
-                                s4 = s3.assume(cc) if not z3.is_true(z3.simplify(cc)) else s3
+                                s4 = s3.assume(cc) if not z3.is_true(_fold(cc)) else s3
                                 if not keep:
                                     nxt.append((s4, acc))
                                     continue
